@@ -160,12 +160,13 @@ func newPathToken(typ pathType, val string, s, e int) pathToken {
 	switch typ {
 	case pathTypeEOF:
 		return pathToken{typ: typ}
-	case pathTypeStr, pathTypeAny, pathTypeElem, pathTypeField, pathTypeIndexL, pathTypeIndexR, pathTypeLitStr, pathTypeMapR, pathTypeMapL, pathTypeRoot:
+	case pathTypeStr, pathTypeAny, pathTypeElem, pathTypeField, pathTypeIndexL, pathTypeIndexR, pathTypeLitStr, pathTypeMapR, pathTypeMapL, pathTypeRoot, pathTypeERR:
 		return pathToken{typ: typ, val: newPathValueStr(val), loc: [2]int{s, e}}
 	case pathTypeLitInt:
 		i, err := strconv.Atoi(val)
 		if err != nil {
-			panic(err)
+			// e.g. an integer literal that overflows int: report it as an invalid token instead of panicking
+			return pathToken{typ: pathTypeERR, val: newPathValueStr("invalid integer " + val), loc: [2]int{s, e}}
 		}
 		return pathToken{typ: typ, val: newPathValueInt(i), loc: [2]int{s, e}}
 	default:
@@ -347,6 +348,9 @@ func (cur *FieldMask) GetPath(desc *thrift_reflection.TypeDescriptor, path strin
 
 			var f *thrift_reflection.FieldDescriptor
 			if typ == pathTypeLitInt {
+				if iv := tok.val.Int(); iv > math.MaxInt32 || iv < math.MinInt32 {
+					return nil, false
+				}
 				f = st.GetFieldById(tok.val.Int32())
 				if f == nil {
 					return nil, false
